@@ -315,6 +315,9 @@ func runC14(c *Ctx) {
 			bad+": the copy's lock is not the classifier's lock - readers that take it race with AddValue, and a copy made while the lock is held is locked forever")
 	}
 
+	// ---- R14.10: what a call answers does not depend on arrival or iteration order ---
+	checkArrivalOrder(c, p, fns)
+
 	// ---- R14.6: a known value is complete before it is published ----------------------
 	checkPublishAfterInit(c, p, fns, kvName, setField)
 
@@ -390,6 +393,153 @@ func checkQueueMutex(c *Ctx, p *core.Prog, fns []*ssa.Function, flows map[*ssa.F
 	}
 	c.R.RequireMin("R14.4", "queue operations in goroutines", len(qops), 2)
 
+}
+
+// checkArrivalOrder: R14.10. Spawned goroutines push their matches into a priority queue in the order in which they
+// finish, and the known values live in a map: a call answers the same as the sequential call only if neither order
+// reaches the answer. (a) The order function of a queue that goroutines push into separates two matches of equal
+// confidence by the other thing a caller sees of the first match - its name; (b) no loop over a map in the package is
+// left before all entries were seen with something else than a constant verdict.
+func checkArrivalOrder(c *Ctx, p *core.Prog, fns []*ssa.Function) {
+	region := eng.ConcurrentRegion(fns)
+	pushInRegion := false
+	for f := range region {
+		for _, call := range core.CallsIn(f) {
+			if core.StaticCalleeName(call.Common()) == "(*"+scPkg+"/internal/pq.Queue).Push" {
+				pushInRegion = true
+			}
+		}
+	}
+	nQ := 0
+	for _, f := range fns {
+		for _, call := range core.CallsIn(f) {
+			if core.StaticCalleeName(call.Common()) != scPkg+"/internal/pq.NewQueue" || len(call.Common().Args) == 0 {
+				continue
+			}
+			nQ++
+			key := "order of the queue made in " + core.ShortFn(f)
+			var less *ssa.Function
+			switch a := call.Common().Args[0].(type) {
+			case *ssa.Function:
+				less = a
+			case *ssa.MakeClosure:
+				less, _ = a.Fn.(*ssa.Function)
+			}
+			if less == nil {
+				c.R.Undecided("R14.10", key, p.Pos(call.Pos()), "the order function is not a function literal or a named function")
+				continue
+			}
+			cmp := comparedFields(less, 2)
+			d := fmt.Sprintf("%s compares the fields %v", core.ShortFn(less), sortedKeys(cmp))
+			if !pushInRegion {
+				c.R.OK("R14.10", key, p.Pos(call.Pos()), d+"; no goroutine pushes into a queue")
+				continue
+			}
+			c.R.Check(cmp["Confidence"] && cmp["Name"], "R14.10", key, p.Pos(call.Pos()), d,
+				d+": two matches of equal confidence are ordered by whichever goroutine pushed first, so the match a call reports changes from call to call")
+		}
+	}
+	c.R.RequireMin("R14.10", "queues made in stringclassifier", nQ, 1)
+	nLoops := 0
+	for _, f := range fns {
+		for _, rl := range rangeLoopsOf(f) {
+			if _, isMap := rl.over.Type().Underlying().(*types.Map); !isMap {
+				continue
+			}
+			nLoops++
+			bad := mapRangeLeftEarly(p, f, rl)
+			c.R.Check(bad == "", "R14.10", "map range in "+core.ShortFn(f)+" over "+core.TypeName(rl.over.Type())+" sees every entry or ends in a constant verdict", p.Pos(rl.header.Instrs[0].Pos()), "",
+				"the loop over the map can be left before all entries were seen (at "+bad+") with something else than a constant verdict: which entry ends it depends on the iteration order, which changes from call to call")
+		}
+	}
+	c.R.RequireMin("R14.10", "map ranges in stringclassifier", nLoops, 1)
+}
+
+// mapRangeLeftEarly: the position of an exit from the natural loop of a map range, other than through its header, that
+// does not end in a return of constants ("" if there is none).
+func mapRangeLeftEarly(p *core.Prog, fn *ssa.Function, rl rangeLoop) string {
+	loop := naturalLoop(rl.header)
+	bad := ""
+	for _, b := range fn.Blocks {
+		if !loop[b] || b == rl.header {
+			continue
+		}
+		last := b.Instrs[len(b.Instrs)-1]
+		for _, sc := range b.Succs {
+			if loop[sc] || returnsConstOnly(sc) {
+				continue
+			}
+			bad = p.Pos(last.Pos())
+			if bad == "-" {
+				bad = p.Pos(sc.Instrs[0].Pos())
+			}
+		}
+	}
+	return bad
+}
+
+// comparedFields: the names of the struct fields whose values are operands of a comparison in f (or in a repository
+// function it calls, to the given depth).
+func comparedFields(f *ssa.Function, depth int) map[string]bool {
+	out := map[string]bool{}
+	var fieldOf func(v ssa.Value, d int) string
+	fieldOf = func(v ssa.Value, d int) string {
+		if d > 4 {
+			return ""
+		}
+		switch x := v.(type) {
+		case *ssa.UnOp:
+			if x.Op == token.MUL {
+				if fa, ok := x.X.(*ssa.FieldAddr); ok {
+					return core.FieldName(fa)
+				}
+			}
+		case *ssa.Field:
+			if st, ok := x.X.Type().Underlying().(*types.Struct); ok {
+				return st.Field(x.Field).Name()
+			}
+		case *ssa.Convert:
+			return fieldOf(x.X, d+1)
+		case *ssa.ChangeType:
+			return fieldOf(x.X, d+1)
+		}
+		return ""
+	}
+	var walk func(f *ssa.Function, d int)
+	seen := map[*ssa.Function]bool{}
+	walk = func(f *ssa.Function, d int) {
+		if f == nil || seen[f] || len(f.Blocks) == 0 {
+			return
+		}
+		seen[f] = true
+		for _, b := range f.Blocks {
+			for _, in := range b.Instrs {
+				switch x := in.(type) {
+				case *ssa.BinOp:
+					switch x.Op {
+					case token.LSS, token.GTR, token.LEQ, token.GEQ, token.EQL, token.NEQ:
+						for _, o := range []ssa.Value{x.X, x.Y} {
+							if n := fieldOf(o, 0); n != "" {
+								out[n] = true
+							}
+						}
+					}
+				case *ssa.Call:
+					if n := core.StaticCalleeName(&x.Call); n == "strings.Compare" || n == "cmp.Compare" {
+						for _, o := range x.Call.Args {
+							if fn := fieldOf(o, 0); fn != "" {
+								out[fn] = true
+							}
+						}
+					} else if cal := x.Call.StaticCallee(); cal != nil && core.InRepo(cal) && d > 0 {
+						walk(cal, d-1)
+					}
+				}
+			}
+		}
+	}
+	walk(f, depth)
+	return out
 }
 
 // queueOwner: the outermost function in which a local queue variable lives.
@@ -817,4 +967,13 @@ func initOf(p *core.Prog, pkg string) []*ssa.Function {
 		}
 	}
 	return nil
+}
+
+func sortedKeys(m map[string]bool) []string {
+	var ks []string
+	for k := range m {
+		ks = append(ks, k)
+	}
+	sort.Strings(ks)
+	return ks
 }
